@@ -124,16 +124,11 @@ class MapSpec(H.Spec):
                 j = [q[0] for q in rest].index(pos) + (1 if after else 0)
                 m.p = rest[:j] + [[k, v]] + rest[j:]
                 return ('ok', None, None)
-            # index: remove-then-insert-at-index (list.insert clamps); the other reading (index taken in
-            # the original list) is accepted as well
+            # index: remove-then-insert-at-index (list.insert clamps): the key ends up AT the position the caller named,
+            # which is the only reading under which 'position from the start of the array' is well defined
             i = pos + (1 if after else 0)
             rest = [q for q in p if q[0] != k]
             a = rest[:i] + [[k, v]] + rest[i:]
-            if m.has(k):
-                old = m.idx(k)
-                j = i - 1 if old < i else i
-                b = rest[:j] + [[k, v]] + rest[j:]
-                alts = [b]
             m.p = a
             return ('ok', None, alts)
         if kind == 'del':
@@ -332,7 +327,7 @@ def run(ctx):
                 'applied to every reachable state over keys a-d; state = (class, ordered items, hidden _order/_values); distinct = distinct '
                 'canonical states; every state is reached by a non-empty history except the two roots',
         'coverage': {'bounds': {'keys': KEYS, 'values': mvals(ctx.quick), 'max_depth': 6 if ctx.quick else 8, 'info': info}},
-        'assumptions': ['index relocation accepts both readings (insert position computed before or after removing the key); pos_key == key '
+        'assumptions': ['index relocation = remove the key, then insert at the index named (the key ends up at that position); pos_key == key '
                         'only requires right content and unchanged relative order of the other keys (outside the documented contract)',
                         'partial application of a rejected multi-item extend() is not pinned'],
         'single_outcome_ok': False,
